@@ -16,6 +16,7 @@ import (
 	"time"
 
 	"verifharness/internal/ev"
+	"verifharness/internal/gendocs"
 	"verifharness/internal/genlab"
 )
 
@@ -136,13 +137,21 @@ func Main(args []string) int {
 			items = append(items, genlab.CorpusItem(filepath.Join(td, c)))
 		}
 	}
-	// feature variants of sample.json (every template incl. example tests / faker)
-	all := []string{"paths/client", "paths/server", "webhooks/client", "webhooks/server", "client/security/reentrant", "client/request/options", "client/request/validation", "server/response/validation", "ogen/otel", "ogen/unimplemented", "debug/example_tests"}
-	sample := genlab.CorpusItem(filepath.Join(td, "positive/sample.json"))
-	sample.DefaultFeat = false
-	sample.Features = all
-	sample.ID = "positive/sample.json#all-features"
-	items = append(items, sample)
+	// every document also with every feature on (validation, example tests, faker, request options): templates
+	// and IR walks that the default feature set never runs
+	for i, n := 0, len(items); i < n; i++ {
+		if !r.Thorough() && i%2 == 1 && !strings.Contains(items[i].ID, "sample.json") {
+			continue
+		}
+		v := items[i]
+		v.DefaultFeat = false
+		v.Features = gendocs.AllFeatures
+		v.ID += "#all-features"
+		items = append(items, v)
+	}
+	// crafted and PRNG-generated documents aimed at order-sensitive constructs
+	items = append(items, gendocs.Crafted()...)
+	items = append(items, gendocs.SchemaDocs(r.Seed, r.N(4, 40), 12)...)
 	s2 := genlab.CorpusItem(filepath.Join(td, "positive/sample.json"))
 	s2.DefaultFeat = false
 	s2.Features = []string{"paths/client"}
